@@ -63,7 +63,7 @@ def scenario(spec: dict):
 
     def expected() -> bytes:
         if kind == 'text':
-            return ''.join('héllo-✓-' + c * 3 + '\n' for c in spec['chunks']).encode('utf8')
+            return ''.join('héllo-✓-' + c * 3 + '\n' for c in spec['chunks']).encode(spec.get('encoding', 'utf8') if spec.get('encoding') == 'utf-16' else 'utf8')
         if kind == 'bsp':
             return b''   # computed from the fault-free run
         return b''.join(CHUNKS[c] for c in spec['chunks'])
@@ -87,7 +87,7 @@ def scenario(spec: dict):
                     f.write(CHUNKS[c])
                 maybe_raise(len(spec['chunks']))
         elif kind == 'text':
-            with AtomicWriter(dest, is_bytes=False, encoding='utf8') as f:
+            with AtomicWriter(dest, is_bytes=False, encoding=spec.get('encoding', 'utf8')) as f:
                 for j, c in enumerate(spec['chunks']):
                     maybe_raise(j)
                     f.write('héllo-✓-' + c * 3 + '\n')
@@ -179,7 +179,8 @@ def explore_scenario(base: str, spec: dict) -> core.Acc:
     acc.evaluations += 1
     nops = len(ctl.log)
     acc.count('operations_profiled', nops)
-    expect_fail = spec.get('raise_at') is not None or spec['kind'] == 'generator'
+    # (a text writer whose encoding does not exist, or cannot encode what the body writes, fails like a raising body)
+    expect_fail = spec.get('raise_at') is not None or spec['kind'] == 'generator' or spec.get('encoding') in ('no-such-codec', 'ascii')
     _, _, expected = scenario(spec)
     if spec['kind'] == 'bsp' and raised is None:
         with open(dest, 'rb') as f:
@@ -199,7 +200,7 @@ def explore_scenario(base: str, spec: dict) -> core.Acc:
             pass        # closing a generator is a normal return for the consumer
         elif raised is None:
             acc.fail('body_exception_swallowed', case0, f'{spec}: the body raised but the with-statement returned normally')
-        elif not isinstance(raised, (BodyError, KeyboardInterrupt, GeneratorExit, SystemExit)):
+        elif not isinstance(raised, (BodyError, KeyboardInterrupt, GeneratorExit, SystemExit) + ((LookupError, UnicodeError) if spec.get('encoding') else ())):
             acc.fail('body_exception_replaced', case0, f'{spec}: body exception replaced by {type(raised).__name__}: {raised}')
         if final.get(rel_dest) != old_hash:
             acc.fail('abandoned_write_changed_dest', case0, f'{spec}: destination changed although the body raised: {final}')
@@ -260,7 +261,7 @@ def explore_scenario(base: str, spec: dict) -> core.Acc:
             # absorbing these is the designed behaviour: EEXIST -> next temp name; ENOENT on cleanup; and pathlib's
             # mkdir(exist_ok=True) ignores any OSError when the directory is already there
             tolerated = (op == 'open' and fname == 'EEXIST') or (op == 'unlink' and fname == 'ENOENT') or op == 'mkdir'
-            if raised2 is None or (expect_fail and isinstance(raised2, (BodyError, KeyboardInterrupt, GeneratorExit, SystemExit))):
+            if raised2 is None or (expect_fail and isinstance(raised2, (BodyError, KeyboardInterrupt, GeneratorExit, SystemExit, LookupError, UnicodeError))):
                 # the writer absorbed the fault (e.g. EEXIST -> next temp name): then the normal outcome is required
                 want = old_hash if expect_fail else new_hash
                 if spec['kind'] == 'twice' and got == sha(b'FIRST-GENERATION'):
@@ -574,6 +575,9 @@ def scenario_list(quick: bool) -> list:
             specs.append({'kind': 'bytes', 'chunks': chunks, 'old': old})
     for chunks in ('', 's', 'ss', 'sfs'):
         specs.append({'kind': 'text', 'chunks': chunks, 'old': True})
+    for enc in ('no-such-codec', 'ascii', 'utf-16'):
+        specs.append({'kind': 'text', 'chunks': 's', 'old': True, 'encoding': enc})
+    specs.append({'kind': 'text', 'chunks': 'sf', 'old': False, 'encoding': 'no-such-codec'})
     # body raises at every write index
     for chunks in ('', 's', 'sf', 'sfs', 'fL'):
         for j in range(len(chunks) + 1):
